@@ -292,6 +292,63 @@ func ruleC10(p *Prog, r *Res) {
 					if !fetches {
 						return true
 					}
+					// `for n := range stack { i := len(stack)-1-n; r := stack[i] …`: the key counts the readers already
+					// visited, the element is taken from the far end — a descending traversal written with range
+					if s.Value == nil || types.ExprString(s.Value) == "_" {
+						if kobj := identObj(info, s.Key); kobj != nil {
+							reversed := func(e ast.Expr) bool {
+								// len(S) - 1 - key
+								b1, ok := ast.Unparen(e).(*ast.BinaryExpr)
+								if !ok || b1.Op != token.SUB || identObj(info, b1.Y) != kobj {
+									return false
+								}
+								b2, ok := ast.Unparen(b1.X).(*ast.BinaryExpr)
+								if !ok || b2.Op != token.SUB {
+									return false
+								}
+								c, ok := ast.Unparen(b2.X).(*ast.CallExpr)
+								if !ok || !isBuiltin(info, c, "len") || len(c.Args) != 1 || types.ExprString(c.Args[0]) != types.ExprString(s.X) {
+									return false
+								}
+								one, isC := constInt(info, b2.Y)
+								return isC && one == 1
+							}
+							revVars := map[types.Object]bool{}
+							ast.Inspect(s.Body, func(y ast.Node) bool {
+								if as, ok := y.(*ast.AssignStmt); ok && len(as.Lhs) == len(as.Rhs) {
+									for i, l := range as.Lhs {
+										if o := identObj(info, l); o != nil && reversed(as.Rhs[i]) {
+											revVars[o] = true
+										}
+									}
+								}
+								return true
+							})
+							usesKey, usesRev := false, false
+							ast.Inspect(s.Body, func(y ast.Node) bool {
+								if ix, ok := y.(*ast.IndexExpr); ok {
+									if t := info.TypeOf(ix.X); t != nil && types.TypeString(t, nil) == readerSliceT {
+										if o := identObj(info, ix.Index); o != nil && revVars[o] || reversed(ix.Index) {
+											usesRev = true
+										} else {
+											ast.Inspect(ix.Index, func(z ast.Node) bool {
+												if id, ok := z.(*ast.Ident); ok && info.ObjectOf(id) == kobj {
+													usesKey = true
+												}
+												return true
+											})
+										}
+									}
+								}
+								return true
+							})
+							if usesRev && !usesKey {
+								nc++
+								r.Ok(ruleC, fmt.Sprintf("%s range %s (index len-1-key)", key, types.ExprString(s.X)), p.Pos(s), "descending: the element is taken at len-1-key")
+								return true
+							}
+						}
+					}
 					nc++
 					k := fmt.Sprintf("%s range %s", key, types.ExprString(s.X))
 					r.Check(!exits, ruleC, k, p.Pos(s), "ascending range without early exit (visits every reader)", "ascending range over the reader stack that stops at the first hit: an older version of a stream wins over the newest one")
